@@ -9,6 +9,7 @@ package libvore
 // schedule at once, two calls that share only memory that neither writes cannot race.
 //@ func Compile [C19 C18]
 //@   effects noglobals [C19]
+//@   effects nocomp randseed [C19]
 //@   effects nocomp stdout [C18]
 //@   trusted
 //@   modifies *
